@@ -838,7 +838,10 @@ class Connection (EventMixin):
       self.info(msg)
     self.disconnected = True
     try:
-      self.ofnexus._disconnect(self.dpid)
+      # Only unregister ourself -- the switch may already have reconnected,
+      # in which case the registered connection is a newer one.
+      if self.ofnexus.getConnection(self.dpid) in (self, None):
+        self.ofnexus._disconnect(self.dpid)
     except:
       pass
     if self.dpid is not None:
